@@ -48,6 +48,15 @@ type c13Input struct {
 	data []byte
 }
 
+// c13M: the registry of the workload - the stock minifiers with shared option structs plus two command minifiers
+// (external tools fed through temporary files and through pipes).
+func c13M(o *Opts) *minify.M {
+	m := newM(o)
+	m.AddCmd("text/x-cmd-files", exec.Command("cp", "$in.txt", "$out.txt"))
+	m.AddCmd("text/x-cmd-pipe", exec.Command("tr", "a-z", "A-Z"))
+	return m
+}
+
 func c13Pool(r *core.Rand) []c13Input {
 	var pool []c13Input
 	add := func(mt, s string) { pool = append(pool, c13Input{mt, []byte(s)}) }
@@ -78,6 +87,10 @@ func c13Pool(r *core.Rand) []c13Input {
 	var extra []c13Input
 	for i := 0; i < 40; i++ {
 		extra = append(extra, c13Input{"text/css", []byte(genStylesheet(r.Fork("css")))}, c13Input{"image/svg+xml", []byte(genSVGDoc(r.Fork("svg")))})
+	}
+	for i := 0; i < 6; i++ {
+		extra = append(extra, c13Input{"text/x-cmd-files", []byte(fmt.Sprintf("payload %d for the command minifier: %s", i, strings.Repeat(string(rune('a'+i)), 50+i*37)))},
+			c13Input{"text/x-cmd-pipe", []byte(fmt.Sprintf("pipe payload %d %s", i, strings.Repeat("xyz", 10+i)))})
 	}
 	pool = append(extra, pool...)
 	return pool
@@ -229,6 +242,19 @@ func processQuiescent() bool {
 
 // c13Workload returns a list of problems (empty = held).
 func c13Workload(seed uint64, goroutines, opsPer int) (problems []string, ops int64, digest string) {
+	// the command minifiers leave their temporary files behind (the library never removes them): keep them in a
+	// scratch directory that goes away with the workload
+	tmp := core.Scratch("c13tmp")
+	oldTmp, hadTmp := os.LookupEnv("TMPDIR")
+	os.Setenv("TMPDIR", tmp)
+	defer func() {
+		if hadTmp {
+			os.Setenv("TMPDIR", oldTmp)
+		} else {
+			os.Unsetenv("TMPDIR")
+		}
+		os.RemoveAll(tmp)
+	}()
 	r := core.Stream(0xc13, "pool") // the pool is the same in every process (cross-process digest)
 	pool := c13Pool(r)
 	// media type spellings that are resolved by the registered patterns (many distinct strings, first use happens concurrently)
@@ -243,7 +269,7 @@ func c13Workload(seed uint64, goroutines, opsPer int) (problems []string, ops in
 		}
 	}
 	opts := c13Opts()
-	m := newM(opts) // cold registry for the concurrent phase
+	m := c13M(opts) // cold registry for the concurrent phase
 	before := fmt.Sprintf("%#v", *opts)
 	var refs []c13Ref
 	{
@@ -252,7 +278,7 @@ func c13Workload(seed uint64, goroutines, opsPer int) (problems []string, ops in
 		var prog int64
 		done := make(chan struct{})
 		go c13Marked(func() {
-			refs = c13ReferenceP(newM(c13Opts()), pool, &prog)
+			refs = c13ReferenceP(c13M(c13Opts()), pool, &prog)
 			close(done)
 		})
 		if d := c13Await(done, &prog); d != "" {
